@@ -65,6 +65,7 @@ type replayFile struct {
 	Bounds  map[string]int `json:"bounds"`
 	Vector  []ReplayVal    `json:"vector"`
 	Trace   string         `json:"trace,omitempty"`
+	Sched   *SchedInfo     `json:"sched,omitempty"`
 }
 
 type replayResult struct {
@@ -443,7 +444,7 @@ func cmdCheck(args []string) int {
 			break
 		}
 		rf := replayFile{Harness: v.Harness, Label: v.Label, Key: v.Key, Kind: v.Kind, Msg: v.Msg,
-			Bounds: vBounds[v], Vector: v.Vector, Trace: v.Trace}
+			Bounds: vBounds[v], Vector: v.Vector, Trace: v.Trace, Sched: v.Sched}
 		b, _ := json.MarshalIndent(rf, "", " ")
 		h := sha256.Sum256(b)
 		path := filepath.Join(replayDir, fmt.Sprintf("%s-%s-%x.json", prop, v.Harness, h[:5]))
